@@ -1,2 +1,7 @@
 import ServiceModel.Basic.Map
 import ServiceModel.Model.Step
+import ServiceModel.Driver.Wire
+import ServiceModel.Inv.Defs
+import ServiceModel.Inv.Monitors
+import ServiceModel.Proofs.BWorld
+import ServiceModel.Proofs.XNewBatch
